@@ -338,7 +338,8 @@ theorem po_inputOp (p : String) : PlainOp (inputOp p) := by
 theorem po_copyOp (d s : String) (g : Bool) : PlainOp (copyOp d s g) := by
   unfold copyOp
   refine po_bind _ _ ?_ (fun _ => po_bind _ _ po_get (fun _ => po_bind _ _ (po_callFunc _ _ _) (fun _ =>
-    po_bind _ _ (po_callFunc _ _ _) (fun _ => po_bind _ _ po_get (fun _ => po_pure _)))))
+    po_bind _ _ po_nextHelperVar (fun _ => po_bind _ _ (po_callFunc _ _ _) (fun _ => po_bind _ _ po_get (fun _ =>
+      po_bind _ _ (po_varAssignment _ _ _) (fun _ => po_varEvaluation _ _)))))))
   apply po_flag; intro s; simp
 theorem po_existsOp (p : String) : PlainOp (existsOp p) := by
   unfold existsOp
